@@ -148,6 +148,31 @@ def st_keywords(draw, count, limit):
     return out
 
 
+def grown_db(desc, cfg, db):
+    """a valid database for the SAME finalized configuration with more than twice the postings (existing lists repeated under
+    new keywords), or None when the configuration's capacities do not allow it"""
+    if desc.name == "CGKO06.SSE2" or not db:
+        return None
+    limit = desc.kw_limit(cfg)
+    out = {w: list(v) for w, v in db.items()}
+    lists = list(db.values())
+    N = sum(len(v) for v in lists)
+    i = 0
+    while sum(len(v) for v in out.values()) < 2 * N + 1 and i < 200:
+        name = (b"g%d" % i)[:limit]
+        i += 1
+        if name and name not in out:
+            out[name] = list(lists[i % len(lists)])
+    lens = [len(v) for v in out.values()]
+    if sum(lens) < 2 * N + 1 or sum(lens) > desc.max_total(cfg):
+        return None
+    if desc.name == "CGKO06.SSE1" and (sum(lens) > cfg["param_s"] - 1 or len(out) > cfg["param_dictionary_size"]):
+        return None
+    if isinstance(desc, Pi2Lev) and not desc.lens_ok(cfg, lens):
+        return None
+    return out
+
+
 def absent_keywords(db_kws, limit, extra):
     """Valid keywords not in the DB that are adversarially close to stored ones, plus caller-supplied random ones."""
     out = []
@@ -168,6 +193,18 @@ def absent_keywords(db_kws, limit, extra):
         add(w[:-1] + bytes([w[-1] ^ 0x80]), "bitflip_last")
         add(w.swapcase(), "swapcase")
     add(b"\xff" * limit if limit <= 64 else b"\xff" * 40, "maxlen")
+    if limit <= 64:
+        # the top of the keyword space (maximum length, value 2^(8L) - 1 - s for small s): where code that needs "unused" inputs
+        # for padding entries takes them from
+        n = len(db_kws)
+        for s in (1, n, n + 1, n + 2):
+            add(((1 << (8 * limit)) - 1 - s).to_bytes(limit, "big"), "top_of_keyword_space")
+        add(b"\x01" + b"\x00" * (limit - 1), "bottom_of_max_length")
+    for w in db_kws[:2]:
+        v = int.from_bytes(w, "big")
+        for d in (1, -1):
+            if 0 < v + d < (1 << (8 * len(w))):
+                add((v + d).to_bytes(len(w), "big"), "numeric_neighbour")
     for b in extra:
         add(b, "random")
     return out
